@@ -15,6 +15,8 @@ META = {'claimed': True,
                'FINDING F11 (listed): json_find recurses once per nesting level without a depth limit; ~262,000 unclosed brackets exhaust an 8 MiB stack - outside the Gallina model (no stack), '
                'probed on the compiled code and reported as KNOWN-FINDING.',
  'level_note': "Trusted: Coq kernel; hand-written models on checked memory bound by differential execution under ASan; libc pieces are oracles with only their bounds assumed (strtod's end pointer "
-               'within the string, inet_pton fills 16 bytes, fgets per C99); machine stack depth is outside the model (F11). Print Assumptions: closed under the global context.',
+               'within the string, inet_pton fills 16 bytes, fgets per C99); machine stack depth is outside the model (F11). Print Assumptions: closed under the global context. Diagnostics '
+               '(util/warnp.c) are outside the Gallina model; they are exercised under ASan in stderr and syslog modes with rejected addresses of 4000..4200, 8192 and 70000 bytes. Repaired defect '
+               'F14: sock_addr_prettyprint of a decoded AF_UNIX name without NUL over-read (fix: commit in /repo).',
  'trusted_base': ['ASan/UBSan for the C side of the correspondence', 'models of strtoumax/strtoimax per glibc 2.36 (DESIGN Appendix A)'],
  'assumptions': ['inputs are NUL-terminated where the C contract says string, and (buf, len) describes one object where it says buffer']}
